@@ -9,8 +9,9 @@ package jsonata
 // jsonata.go: compilation entry points (C08)
 
 //@ func Compile
-//@   props C08
+//@   props C08 C20
 //@   ensures (r0 != nil && r1 == nil) || (r0 == nil && errOK(r1))
+//@   atcall[C20:registry-snapshot-is-a-copy] Expr.updateRegistry#0 requires fresh(callee_e) && callee_e.registry == nil && callee_values == globalRegistry
 
 // --- C10: Eval / EvalBytes -----------------------------------------------------------------------------------------
 // Statement: an expression that yields no value is reported as ErrUndefined; a nil error comes with the value the
@@ -623,6 +624,66 @@ package jsonata
 //@   ensures [C17:no-subject-no-value] len(argv) < 1 ==> (!valid(r0) && r1 == nil)
 //@   ensures r1 != nil ==> !valid(r0)
 //@   assigns heap
+
+// --- C20: extensions --------------------------------------------------------------------------------------------------------------------
+// goCallable.validateArgCount: the EvalContextHandler is consulted first, on the arguments as supplied, and makes the
+// context item the first argument; the UndefinedHandler then sees the (possibly extended) list and turns the call into
+// 'no value'; omitted trailing Optional parameters are filled with 'no value'; a non-variadic function needs exactly
+// its parameter count, a variadic one at least count-1, else ArgCountError with the number of arguments supplied.
+//@ pred gcOK(c *goCallable) = c != nil && (c.isVariadic ==> len(c.params) >= 1)
+//@ func (*goCallable).validateArgCount
+//@   props C20 C09
+//@   opaque-arith
+//@   precise-append
+//@   requires gcOK(c)
+//@   ensures [C20:count-error-has-no-arguments] r1 != nil ==> len(r0) == 0
+//@   ensures [C20:accepted-count-fits] r1 == nil ==> (c.isVariadic ? len(r0) >= len(c.params) - 1 : len(r0) == len(c.params))
+//@   atcall[C20:context-handler-first-on-supplied-arguments] functype:ArgHandler#0 requires self == c.contextHandler && callee_arg0 == old(argv)
+//@   atcall[C20:undefined-handler-after-context-insertion] functype:ArgHandler#1 requires self == c.undefinedHandler && callee_arg0 == argv && ((c.contextHandler != nil && ret("functype:ArgHandler#0", 0)) ==> (len(argv) == len(old(argv)) + 1 && argv[0] == c.context)) && (!(c.contextHandler != nil && ret("functype:ArgHandler#0", 0)) ==> argv == old(argv))
+//@   atcall[C20:error-reports-supplied-count] newArgCountError#0 requires callee_received == len(old(argv))
+//@   atcall[C20:error-reports-supplied-count] newArgCountError#1 requires callee_received == len(old(argv))
+//@   atif[C20:only-optional-parameters-are-filled] "c.params[i].isOpt" iff c.params[i].isOpt
+//@   loop 0 invariant i == len(argv) && paramCount == len(c.params) && argc == len(old(argv)) && gcOK(c)
+
+// goCallable.validateArgTypes: every argument is converted to its parameter's type (the last parameter's for the
+// variadic tail); the first one that does not fit is an ArgTypeError naming its 1-based position
+//@ func processGoCallableArg
+//@   props C20 C09
+//@   assigns heap
+//@   trusted
+//@ func (*goCallable).validateArgTypes
+//@   props C20 C09
+//@   opaque-arith
+//@   requires gcOK(c) && (c.isVariadic ? len(argv) >= len(c.params) - 1 : len(argv) == len(c.params))
+//@   preserves c
+//@   ensures [C20:type-error-has-no-arguments] r1 != nil ==> len(r0) == 0
+//@   ensures [C20:same-argument-list] r1 == nil ==> (len(r0) == len(argv) && arr(r0) == arr(argv))
+//@   assigns heap
+//@   atcall[C20:parameter-of-the-position] processGoCallableArg#0 requires callee_param == c.params[(i >= paramCount ? paramCount - 1 : i)]
+//@   atcall[C20:error-names-position] newArgTypeError#0 requires callee_which == i + 1
+//@   loop 0 invariant -1 <= $i0 && paramCount == len(c.params) && gcOK(c)
+//@   loop 0 invariant c.isVariadic ==> len(argv) >= len(c.params) - 1
+//@   loop 0 invariant !c.isVariadic ==> len(argv) == len(c.params)
+
+// goCallable.Call: count then types are validated; ErrUndefined from the handlers or from the function itself is 'no
+// value' with a nil error; any other error of the function is Eval's error; otherwise the first result is the value
+//@ func (*goCallable).Call
+//@   props C20 C09
+//@   requires gcOK(c) && kind(c.fn) == 19
+//@   preserves c
+//@   ensures [C20:count-error-propagates] (ret("goCallable.validateArgCount#0", 1) != nil && ret("goCallable.validateArgCount#0", 1) != jtypes.ErrUndefined) ==> (r1 == ret("goCallable.validateArgCount#0", 1) && !valid(r0))
+//@   ensures [C20:undefined-handler-is-no-value] ret("goCallable.validateArgCount#0", 1) == jtypes.ErrUndefined ==> (r1 == nil && !valid(r0))
+//@   ensures [C20:type-error-propagates] (ret("goCallable.validateArgCount#0", 1) == nil && ret("goCallable.validateArgTypes#0", 1) != nil) ==> (r1 == ret("goCallable.validateArgTypes#0", 1) && !valid(r0))
+//@   assigns heap
+
+// Compile: parses, then copies the global registry into the new expression's own registry (under the read lock): later
+// registrations on the expression write its own map, later global registrations do not reach it
+//@ func (*Expr).updateRegistry
+//@   props C20 C08
+//@   requires e != nil
+//@   ensures [C20:own-map] (old(e.registry) != nil ==> e.registry == old(e.registry)) && (old(e.registry) == nil ==> (e.registry == nil || fresh(e.registry)))
+//@   assigns e.registry, deref(e.registry)
+//@   loop 0 invariant e.registry == old(e.registry) || (old(e.registry) == nil && fresh(e.registry) && e.registry != nil)
 
 // --- C11 / C14: literals, array and object constructors ---------------------------------------------------------------
 // JSON texts denote themselves: string / number / boolean literals evaluate to their value, null to the nil pointer
